@@ -140,6 +140,7 @@ func (e *Engine) externalModel(fr *frame, ins ssa.Instruction, name string, fn *
 				e.sc.assume(implies(ok, app("bvule", val, bvLit((uint64(1)<<uint(n))-1, 64))))
 			}
 		}
+		e.noteParse(pfx, base, bits)
 		e.parseFacts(pfx, str(0), base, bits, signed)
 		// on failure the value is not used by well-behaved callers; Go returns 0 or the clamped value
 		errv := e.iteVal(ok, nilErr, newErr())
@@ -150,6 +151,7 @@ func (e *Engine) externalModel(fr *frame, ins ssa.Instruction, name string, fn *
 		e.needStrOp("parseint.ok", []string{SStr, SI64, SI64}, SBool)
 		val := e.sc.define("pv", SI64, app("parseint.val", str(0), bvLit(10, 64), bvLit(0, 64)))
 		ok := e.sc.define("pok", SBool, app("parseint.ok", str(0), bvLit(10, 64), bvLit(0, 64)))
+		e.noteParse("parseint", bvLit(10, 64), bvLit(0, 64))
 		e.parseFacts("parseint", str(0), bvLit(10, 64), bvLit(0, 64), true)
 		errv := e.iteVal(ok, nilErr, newErr())
 		// Atoi returns 0 on syntax error (documented behaviour relied upon by handleDB/DW/DD is only the ok case)
@@ -241,4 +243,20 @@ func (e *Engine) parseFacts(pfx, s, base, bits string, signed bool) {
 			e.sc.assume(not(app(pfx+".ok", c, base, bits)))
 		}
 	}
+}
+
+func (e *Engine) noteParse(pfx, base, bits string) {
+	if _, ok := e.smallConst(base); !ok {
+		return
+	}
+	if _, ok := e.smallConst(bits); !ok {
+		return
+	}
+	k := pfx + "|" + base + "|" + bits
+	for _, x := range e.parseCalls {
+		if x == k {
+			return
+		}
+	}
+	e.parseCalls = append(e.parseCalls, k)
 }
